@@ -253,6 +253,16 @@ const ref::Model* real_model_for(const std::string& key)
         tb.go.push_back(rt.go[size_t(s)]);
     }
     m->t = tb;
+    if (fe->dump_dfa && !canon->g.custom_lexer)
+    {
+        RealDfa rd;
+        fe->dump_dfa(rd);
+        if (rd.nstates > 0)
+        {
+            m->dfa.reset(new ref::DfaLexer());
+            m->dfa->nstates = rd.nstates; m->dfa->next = rd.next; m->dfa->recognized = rd.recognized;
+        }
+    }
     const ref::Model* p = m.get();
     cache[gname] = std::move(m);
     return p;
